@@ -1,3 +1,356 @@
-/* placeholder */
-static void c05_env(T0N_CTXT *c) { (void)c; }
-static void c05_post(T0N_CTXT *c, unsigned op) { (void)c; (void)op; }
+/*
+ * C05_env_hs.h -- environment of ONE native word of the TLS handshake programs
+ * (ssl_hs_client.c / ssl_hs_server.c): everything the native reaches outside
+ * the generated file is a contract stub at the nearest seam.
+ *
+ *  link seams   : br_ssl_engine_* (engine data path: C06), br_hmac_drbg_generate,
+ *                 br_multihash_* (C13)
+ *  pointer seams: X.509 validator class, client certificate handler class, server
+ *                 policy / session cache classes, br_ec_impl, RSA / ECDSA functions
+ */
+#ifndef C05_ENV_HS_H
+#define C05_ENV_HS_H
+
+#define C05_OB 8
+static unsigned char c05_out[C05_OB];
+
+/* ------------------------------------------------------------------ link seams */
+void
+br_ssl_engine_fail(br_ssl_engine_context *cc, int err)
+{
+	if (cc->iomode != BR_IO_FAILED) {
+		cc->iomode = BR_IO_FAILED;
+		cc->err = err;
+	}
+}
+void br_ssl_engine_flush_record(br_ssl_engine_context *cc) { (void)cc; }
+int br_ssl_engine_recvrec_finished(const br_ssl_engine_context *cc) { (void)cc; return ND_U8() & 1; }
+void br_ssl_engine_new_max_frag_len(br_ssl_engine_context *cc, unsigned max_frag_len) { (void)cc; (void)max_frag_len; }
+void
+br_ssl_engine_compute_master(br_ssl_engine_context *cc, int prf_id, const void *pms, size_t len)
+{
+	(void)cc; (void)prf_id;
+	c05_need_r(pms, len);
+}
+static void
+c05_prf(void *dst, size_t len, const void *secret, size_t secret_len, const char *label,
+	size_t seed_num, const br_tls_prf_seed_chunk *seed)
+{
+	size_t u;
+	(void)label;
+	c05_need_r(secret, secret_len);
+	for (u = 0; u < seed_num && u < 2; u ++) c05_need_r(seed[u].data, seed[u].len);
+	c05_need_w(dst, len);
+}
+br_tls_prf_impl br_ssl_engine_get_PRF(br_ssl_engine_context *cc, int prf_id) { (void)cc; (void)prf_id; return &c05_prf; }
+void br_ssl_engine_switch_cbc_in(br_ssl_engine_context *cc, int is_client, int prf_id, int mac_id, const br_block_cbcdec_class *bc_impl, size_t cipher_key_len) { (void)cc; (void)is_client; (void)prf_id; (void)mac_id; (void)bc_impl; (void)cipher_key_len; }
+void br_ssl_engine_switch_cbc_out(br_ssl_engine_context *cc, int is_client, int prf_id, int mac_id, const br_block_cbcenc_class *bc_impl, size_t cipher_key_len) { (void)cc; (void)is_client; (void)prf_id; (void)mac_id; (void)bc_impl; (void)cipher_key_len; }
+void br_ssl_engine_switch_gcm_in(br_ssl_engine_context *cc, int is_client, int prf_id, const br_block_ctr_class *bc_impl, size_t cipher_key_len) { (void)cc; (void)is_client; (void)prf_id; (void)bc_impl; (void)cipher_key_len; }
+void br_ssl_engine_switch_gcm_out(br_ssl_engine_context *cc, int is_client, int prf_id, const br_block_ctr_class *bc_impl, size_t cipher_key_len) { (void)cc; (void)is_client; (void)prf_id; (void)bc_impl; (void)cipher_key_len; }
+void br_ssl_engine_switch_ccm_in(br_ssl_engine_context *cc, int is_client, int prf_id, const br_block_ctrcbc_class *bc_impl, size_t cipher_key_len, size_t tag_len) { (void)cc; (void)is_client; (void)prf_id; (void)bc_impl; (void)cipher_key_len; (void)tag_len; }
+void br_ssl_engine_switch_ccm_out(br_ssl_engine_context *cc, int is_client, int prf_id, const br_block_ctrcbc_class *bc_impl, size_t cipher_key_len, size_t tag_len) { (void)cc; (void)is_client; (void)prf_id; (void)bc_impl; (void)cipher_key_len; (void)tag_len; }
+void br_ssl_engine_switch_chapol_in(br_ssl_engine_context *cc, int is_client, int prf_id) { (void)cc; (void)is_client; (void)prf_id; }
+void br_ssl_engine_switch_chapol_out(br_ssl_engine_context *cc, int is_client, int prf_id) { (void)cc; (void)is_client; (void)prf_id; }
+void br_hmac_drbg_generate(br_hmac_drbg_context *ctx, void *out, size_t len) { (void)ctx; c05_need_w(out, len); }
+void br_multihash_zero(br_multihash_context *ctx) { (void)ctx; }
+void br_multihash_init(br_multihash_context *ctx) { (void)ctx; }
+void br_multihash_update(br_multihash_context *ctx, const void *data, size_t len) { (void)ctx; c05_need_r(data, len); }
+size_t
+br_multihash_out(const br_multihash_context *ctx, int id, void *dst)
+{
+	/* output length of hash function `id` (documented), 0 when not configured */
+	static const unsigned char olen[] = { 0, 16, 20, 28, 32, 48, 64 };
+	(void)ctx;
+	if (id < 1 || id > 6 || (ND_U8() & 1)) {
+		return 0;
+	}
+	c05_need_w(dst, olen[id]);
+	return olen[id];
+}
+
+/* ------------------------------------------------------------------ pointer seams */
+static unsigned char c05_k1[8], c05_k2[8];
+static br_x509_pkey c05_pkey;
+static int c05_x_calls;
+static void c05_x_start_chain(const br_x509_class **ctx, const char *server_name) { (void)ctx; (void)server_name; c05_x_calls ++; }
+static void c05_x_start_cert(const br_x509_class **ctx, uint32_t length) { (void)ctx; (void)length; c05_x_calls ++; }
+static void c05_x_append(const br_x509_class **ctx, const unsigned char *buf, size_t len) { (void)ctx; c05_x_calls ++; c05_need_r(buf, len); }
+static void c05_x_end_cert(const br_x509_class **ctx) { (void)ctx; c05_x_calls ++; }
+static unsigned c05_x_end_chain(const br_x509_class **ctx) { (void)ctx; c05_x_calls ++; return ND_U32(); }
+static const br_x509_pkey *
+c05_x_get_pkey(const br_x509_class *const *ctx, unsigned *usages)
+{
+	(void)ctx;
+	if (usages != 0) {
+		*usages = ND_U32();
+	}
+	if (ND_U8() & 1) {
+		return 0;
+	}
+	return &c05_pkey;
+}
+static const br_x509_class c05_x_vtable = { sizeof(br_x509_minimal_context), c05_x_start_chain, c05_x_start_cert,
+	c05_x_append, c05_x_end_cert, c05_x_end_chain, c05_x_get_pkey };
+static const br_x509_class *c05_x_obj = &c05_x_vtable;
+
+static void
+c05_pkey_setup(void)
+{
+	ND_BYTES(c05_k1, sizeof c05_k1); ND_BYTES(c05_k2, sizeof c05_k2);
+	c05_pkey.key_type = ND_U8();
+	if (c05_pkey.key_type == BR_KEYTYPE_EC) {
+		size_t q = ND_SIZE();
+		ASSUME(q <= sizeof c05_k1);
+		c05_pkey.key.ec.curve = ND_INT();
+		c05_pkey.key.ec.q = c05_k1;
+		c05_pkey.key.ec.qlen = q;
+	} else {
+		size_t n = ND_SIZE(), e = ND_SIZE();
+		ASSUME(n <= sizeof c05_k1 && e <= sizeof c05_k2);
+		c05_pkey.key.rsa.n = c05_k1;
+		c05_pkey.key.rsa.nlen = n;
+		c05_pkey.key.rsa.e = c05_k2;
+		c05_pkey.key.rsa.elen = e;
+	}
+}
+
+/* EC implementation: curve parameters of at most 8 bytes */
+static unsigned char c05_ec_buf[8];
+static const unsigned char *c05_ec_generator(int curve, size_t *len) { size_t l = ND_SIZE(); (void)curve; ASSUME(l >= 1 && l <= sizeof c05_ec_buf); *len = l; return c05_ec_buf; }
+static const unsigned char *c05_ec_order(int curve, size_t *len) { size_t l = ND_SIZE(); (void)curve; ASSUME(l >= 1 && l <= sizeof c05_ec_buf); *len = l; return c05_ec_buf; }
+static size_t c05_ec_xoff(int curve, size_t *len) { size_t o = ND_SIZE(), l = ND_SIZE(); (void)curve; ASSUME(o <= 4 && l <= 4); *len = l; return o; }
+static uint32_t c05_ec_mul(unsigned char *G, size_t Glen, const unsigned char *x, size_t xlen, int curve) { (void)curve; c05_need_r(x, xlen); c05_need_w(G, Glen); return ND_U32() & 1; }
+static size_t c05_ec_mulgen(unsigned char *R, const unsigned char *x, size_t xlen, int curve) { size_t l = ND_SIZE(); (void)curve; ASSUME(l <= 8); c05_need_r(x, xlen); c05_need_w(R, l); return l; }
+static uint32_t c05_ec_muladd(unsigned char *A, const unsigned char *B, size_t len, const unsigned char *x, size_t xlen, const unsigned char *y, size_t ylen, int curve)
+{ (void)curve; (void)B; c05_need_r(x, xlen); c05_need_r(y, ylen); c05_need_w(A, len); return ND_U32() & 1; }
+static br_ec_impl c05_ec;
+
+static uint32_t
+c05_irsavrfy(const unsigned char *x, size_t xlen, const unsigned char *hash_oid, size_t hash_len,
+	const br_rsa_public_key *pk, unsigned char *hash_out)
+{
+	(void)hash_oid;
+	c05_need_r(x, xlen);
+	c05_need_r(pk->n, pk->nlen);
+	c05_need_r(pk->e, pk->elen);
+	c05_need_w(hash_out, hash_len);
+	return ND_U32() & 1;
+}
+static uint32_t
+c05_iecdsa(const br_ec_impl *impl, const void *hash, size_t hash_len, const br_ec_public_key *pk, const void *sig, size_t sig_len)
+{
+	(void)impl;
+	c05_need_r(hash, hash_len);
+	c05_need_r(pk->q, pk->qlen);
+	c05_need_r(sig, sig_len);
+	return ND_U32() & 1;
+}
+
+/* certificate chain to send: at most 2 certificates of at most 8 bytes */
+static unsigned char c05_cert0[8], c05_cert1[8];
+static br_x509_certificate c05_chain[2];
+static char c05_pn0[6], c05_pn1[6];
+static const char *c05_pnames[2];
+
+static void
+c05_engine_env(br_ssl_engine_context *e)
+{
+	size_t l0 = ND_SIZE(), l1 = ND_SIZE(), k = ND_SIZE(), cl = ND_SIZE(), co = ND_SIZE();
+	/* handshake input / output regions */
+	C05_IN_REGION(e->hbuf_in, e->hlen_in);
+	{
+		size_t off_ = ND_SIZE(), n_ = ND_SIZE();
+		ASSUME(off_ <= C05_OB && n_ <= C05_OB - off_);
+		e->hbuf_out = c05_out + off_; e->hlen_out = n_;
+	}
+	e->saved_hbuf_out = e->hbuf_out;
+	ASSUME(e->iomode != BR_IO_FAILED || e->err != 0);       /* engine invariant (C06) */
+	c05_pkey_setup();
+	e->x509ctx = &c05_x_obj;
+	/* chain cursor: `chain` points into c05_chain with chain_len entries left; current certificate region */
+	ASSUME(l0 <= sizeof c05_cert0 && l1 <= sizeof c05_cert1 && k <= 2);
+	c05_chain[0].data = c05_cert0; c05_chain[0].data_len = l0;
+	c05_chain[1].data = c05_cert1; c05_chain[1].data_len = l1;
+	e->chain = c05_chain + k; e->chain_len = 2 - k;
+	ASSUME(co <= sizeof c05_cert0 && cl <= sizeof c05_cert0 - co);
+	e->cert_cur = c05_cert0 + co; e->cert_len = cl;
+	/* ALPN names: at most two strings of at most 5 characters */
+	{ size_t i; for (i = 0; i < 5; i ++) { c05_pn0[i] = (char)ND_U8(); c05_pn1[i] = (char)ND_U8(); } c05_pn0[5] = 0; c05_pn1[5] = 0; }
+	c05_pnames[0] = c05_pn0; c05_pnames[1] = c05_pn1;
+	e->protocol_names = c05_pnames;
+	ASSUME(e->protocol_names_num <= 2);
+	/* crypto seams */
+	c05_ec.supported_curves = ND_U32();
+	c05_ec.generator = c05_ec_generator; c05_ec.order = c05_ec_order; c05_ec.xoff = c05_ec_xoff;
+	c05_ec.mul = c05_ec_mul; c05_ec.mulgen = c05_ec_mulgen; c05_ec.muladd = c05_ec_muladd;
+	if (ND_U8() & 1) { e->iec = &c05_ec; } else { e->iec = 0; }
+	if (ND_U8() & 1) { e->irsavrfy = c05_irsavrfy; } else { e->irsavrfy = 0; }
+	if (ND_U8() & 1) { e->iecdsa = c05_iecdsa; } else { e->iecdsa = 0; }
+	/* invariants of the engine fields the natives index with */
+	ASSUME(e->ecdhe_point_len <= sizeof e->ecdhe_point);
+	ASSUME(e->session.session_id_len <= sizeof e->session.session_id);
+	e->server_name[sizeof e->server_name - 1] = 0;           /* NUL-terminated (br_ssl_engine_set_server_name / the T0 code) */
+}
+
+/* ================================================================== client */
+#if defined(C05_KEY_hsc)
+static int c05_ca_calls;
+static void c05_ca_start_name_list(const br_ssl_client_certificate_class **p) { (void)p; c05_ca_calls ++; }
+static void c05_ca_start_name(const br_ssl_client_certificate_class **p, size_t len) { (void)p; (void)len; c05_ca_calls ++; }
+static void c05_ca_append_name(const br_ssl_client_certificate_class **p, const unsigned char *data, size_t len) { (void)p; c05_ca_calls ++; c05_need_r(data, len); }
+static void c05_ca_end_name(const br_ssl_client_certificate_class **p) { (void)p; c05_ca_calls ++; }
+static void c05_ca_end_name_list(const br_ssl_client_certificate_class **p) { (void)p; c05_ca_calls ++; }
+static void
+c05_ca_choose(const br_ssl_client_certificate_class **p, const br_ssl_client_context *cc, uint32_t auth_types, br_ssl_client_certificate *choices)
+{
+	size_t k = ND_SIZE();
+	(void)p; (void)cc; (void)auth_types;
+	ASSUME(k <= 2);
+	choices->auth_type = ND_INT();
+	choices->hash_id = ND_INT();
+	choices->chain = c05_chain;
+	choices->chain_len = k;
+}
+static uint32_t
+c05_ca_do_keyx(const br_ssl_client_certificate_class **p, unsigned char *data, size_t *len)
+{
+	size_t l = ND_SIZE();
+	(void)p;
+	ASSUME(l <= *len);
+	c05_need_w(data, *len);
+	*len = l;
+	return ND_U32() & 1;
+}
+static size_t
+c05_ca_do_sign(const br_ssl_client_certificate_class **p, int hash_id, size_t hv_len, unsigned char *data, size_t len)
+{
+	size_t l = ND_SIZE();
+	(void)p; (void)hash_id;
+	ASSUME(l <= len);
+	c05_need_r(data, hv_len);
+	c05_need_w(data, l);
+	return l;
+}
+static const br_ssl_client_certificate_class c05_ca_vtable = { sizeof(br_ssl_client_certificate_rsa_context),
+	c05_ca_start_name_list, c05_ca_start_name, c05_ca_append_name, c05_ca_end_name, c05_ca_end_name_list,
+	c05_ca_choose, c05_ca_do_keyx, c05_ca_do_sign };
+static const br_ssl_client_certificate_class *c05_ca_obj = &c05_ca_vtable;
+static uint32_t
+c05_irsapub(unsigned char *x, size_t xlen, const br_rsa_public_key *pk)
+{
+	c05_need_r(pk->n, pk->nlen);
+	c05_need_w(x, xlen);
+	return ND_U32() & 1;
+}
+static void
+c05_env(T0N_CTXT *c)
+{
+	c05_engine_env(&c->eng);
+	if (ND_U8() & 1) { c->client_auth_vtable = &c05_ca_obj; } else { c->client_auth_vtable = 0; }
+	c->irsapub = c05_irsapub;
+	/* stated call-site preconditions (established by the T0 code before these words run) */
+	if (OP == C05_OP_do_client_sign || OP == C05_OP_do_static_ecdh) {
+		ASSUME(c->client_auth_vtable != 0);      /* a client certificate was selected */
+	}
+	if (OP == C05_OP_do_ecdh) {
+		ASSUME(c->eng.iec != 0);                 /* an EC suite was negotiated */
+	}
+}
+#endif
+
+/* ================================================================== server */
+#if defined(C05_KEY_hss)
+static int c05_pol_calls;
+static int
+c05_pol_choose(const br_ssl_server_policy_class **p, const br_ssl_server_context *cc, br_ssl_server_choices *choices)
+{
+	size_t k = ND_SIZE();
+	(void)p; (void)cc;
+	c05_pol_calls ++;
+	ASSUME(k <= 2);
+	choices->cipher_suite = ND_U16();
+	choices->algo_id = ND_U32();
+	choices->chain = c05_chain;
+	choices->chain_len = k;
+	return ND_INT();
+}
+static uint32_t
+c05_pol_do_keyx(const br_ssl_server_policy_class **p, unsigned char *data, size_t *len)
+{
+	size_t l = ND_SIZE();
+	(void)p;
+	ASSUME(l <= *len);
+	c05_need_w(data, *len);
+	*len = l;
+	return ND_U32() & 1;
+}
+static size_t
+c05_pol_do_sign(const br_ssl_server_policy_class **p, unsigned algo_id, unsigned char *data, size_t hv_len, size_t len)
+{
+	size_t l = ND_SIZE();
+	(void)p; (void)algo_id;
+	ASSUME(l <= len);
+	c05_need_r(data, hv_len);
+	c05_need_w(data, l);
+	return l;
+}
+static const br_ssl_server_policy_class c05_pol_vtable = { sizeof(br_ssl_server_policy_rsa_context), c05_pol_choose, c05_pol_do_keyx, c05_pol_do_sign };
+static const br_ssl_server_policy_class *c05_pol_obj = &c05_pol_vtable;
+static void
+c05_cache_save(const br_ssl_session_cache_class **p, br_ssl_server_context *sc, const br_ssl_session_parameters *params)
+{
+	(void)p; (void)sc;
+	c05_need_r(params, sizeof *params);
+}
+static int
+c05_cache_load(const br_ssl_session_cache_class **p, br_ssl_server_context *sc, br_ssl_session_parameters *params)
+{
+	(void)p; (void)sc; (void)params;
+	return ND_U8() & 1;
+}
+static const br_ssl_session_cache_class c05_cache_vtable = { sizeof(br_ssl_session_cache_lru), c05_cache_save, c05_cache_load };
+static const br_ssl_session_cache_class *c05_cache_obj = &c05_cache_vtable;
+static unsigned char c05_dn0[8];
+static br_x500_name c05_names[2];
+static br_x509_trust_anchor c05_tas[2];
+static void
+c05_env(T0N_CTXT *c)
+{
+	size_t a = ND_SIZE(), b = ND_SIZE(), o = ND_SIZE(), l = ND_SIZE();
+	c05_engine_env(&c->eng);
+	c->policy_vtable = &c05_pol_obj;
+	if (ND_U8() & 1) { c->cache_vtable = &c05_cache_obj; } else { c->cache_vtable = 0; }
+	/* trust anchor names for the CertificateRequest: at most two, at most 8 bytes */
+	ASSUME(a <= sizeof c05_dn0 && b <= sizeof c05_dn0);
+	c05_names[0].data = c05_dn0; c05_names[0].len = a;
+	c05_names[1].data = c05_dn0; c05_names[1].len = b;
+	c05_tas[0].dn = c05_names[0]; c05_tas[1].dn = c05_names[1];
+	if (ND_U8() & 1) { c->ta_names = c05_names; } else { c->ta_names = 0; }
+	c->tas = c05_tas;
+	ASSUME(c->num_tas <= 2);
+	ASSUME(o <= sizeof c05_dn0 && l <= sizeof c05_dn0 - o);
+	c->cur_dn = c05_dn0 + o; c->cur_dn_len = l;
+	/* invariants of the server fields the natives index with */
+	ASSUME(c->ecdhe_key_len <= sizeof c->ecdhe_key);
+	ASSUME(c->hash_CV_len <= sizeof c->hash_CV);
+	ASSUME(c->hash_CV_id == 0 || (c->hash_CV_id >= 2 && c->hash_CV_id <= 6));
+	/* stated call-site preconditions */
+	if (OP == C05_OP_do_ecdhe_part1 || OP == C05_OP_do_ecdhe_part2) {
+		ASSUME(c->eng.iec != 0);                 /* an ECDHE suite was negotiated */
+	}
+}
+#endif
+
+static void
+c05_post(T0N_CTXT *c, unsigned op)
+{
+	br_ssl_engine_context *e = &c->eng;
+	(void)op;
+	CHECK(C05_IN_REGION_OK(e->hbuf_in, e->hlen_in), "handshake input cursor stays inside the region given by the engine");
+	CHECK(e->hbuf_out >= c05_out && e->hbuf_out <= c05_out + C05_OB && e->hlen_out <= (size_t)(c05_out + C05_OB - e->hbuf_out),
+		"handshake output cursor stays inside the region given by the engine");
+	CHECK(e->iomode != BR_IO_FAILED || e->err != 0, "engine failed implies an error code");
+	CHECK(e->ecdhe_point_len <= sizeof e->ecdhe_point, "invariant: ecdhe_point_len within ecdhe_point");
+}
+
+#endif
